@@ -316,7 +316,7 @@ pub mod rust_log_ref_finder
 
                     result.push(ref_entry);
                 },
-                Rule::EOI => (),
+                Rule::EOI | Rule::other_name => (),
                 _ => unreachable!(),
             }
         }
